@@ -2,18 +2,40 @@
 
 Spec: specs/Columnfile.tla (alias structure of columnfile). Mode B: every transition TLC explores
 (one representative path per distinct state + each outgoing operation) is replayed through a real
-columnfile, started four ways, and the projection of the real object (titles, nrows, ncols, contents
-of the __data view and of the attribute view, canonical memory-region numbering of every array,
-list/array mode, the user's stale reference, the last copy) is compared with the model state; the
-property's clauses are additionally judged directly on the real object.
+columnfile, started six ways, and the projection of the real object (titles, nrows, ncols, contents
+of the __data view and of the attribute view, canonical memory-region numbering of every array -
+including the item view cf[t], cf.getcolumn(t), the rows of the array a get_bigarray call returned,
+and the attribute / item views of the last copy -, list/array mode, the user's stale reference, the
+last copy as a full object: titles, nrows, ncols, views) is compared with the model state; the
+property's clauses are additionally judged directly on the real object and on the copy.
+
+Instance families the model is covariant in and that only the harness varies (each counted in the
+evidence notes under "families"): start form (dict / newcolumnfile+addcolumn / text / hdf / dict with
+int64+float32 columns / dict with strided views of one block), mask and index call shapes (ndarray /
+list, int32 / int64), the container of an array argument of the LAST operation of a history (ndarray /
+python list for addcolumn, setcolumn, cf[new] = ..), removerows values as list / tuple.
+
+Not judged (outside the statement; recorded under notes["observations"]): cf.t = python list,
+cf.t = 0-d array, cf[new] = scalar, addcolumn on a newcolumnfile(titles) that never received data,
+removerows with an empty value list, int64 values beyond 2^53 through bigarray.
 """
 import os, sys, json, itertools, time, zlib
 import numpy as np
 import common
 
 PROP = "C17"
-BUGS = ["BUG_GETBIG", "BUG_SCALAR", "BUG_ARRATTR", "BUG_ADDARR", "BUG_SLICE"]
+BUGS = ["BUG_GETBIG", "BUG_SCALAR", "BUG_ARRATTR", "BUG_ADDARR", "BUG_SLICE", "BUG_CPNCOLS", "BUG_OVERLIST"]
 ALIAS_FINDING = "C17-aliased-columns-reorder"
+# proposed ids (audit D): matched structurally in known_problem(); without an entry in known_findings.json
+# the same failures are violations
+CPNCOLS_FINDING = "C17-copyrows-ncols"
+OVERLIST_FINDING = "C17-addcolumn-overwrite-list"
+COPY_OPS = ("copy", "copyrows_mask", "copyrows_idx", "copyrows_slice")
+FAM = {}
+
+
+def fam(name):
+    FAM[name] = FAM.get(name, 0) + 1
 
 
 def cfg(name, depth, emit, alias=False, bugs=(), props=True, invs=True, action_constraint=None):
@@ -25,7 +47,7 @@ def cfg(name, depth, emit, alias=False, bugs=(), props=True, invs=True, action_c
         inv = inv + ["EmitFinal"]
     return common.write_cfg(os.path.join(common.scratch(), name + ".cfg"), constants=consts,
                             invariants=inv, properties=(["RowOpsUniform"] if props else []),
-                            view="View", action_constraint=("EmitTransition" if emit == 1 else None))
+                            view="View", action_constraint=("EmitTransition" if emit in (1, 3) else None))
 
 
 # ----------------------------------------------------------------------------------------------
@@ -41,8 +63,16 @@ class Real(object):
     def __init__(self, start, C):
         self.C = C
         a, b = np.array([0., 1., 2.]), np.array([2., 0., 1.])
+        fam("start_" + start)
         if start == "dict":
             self.cf = C.colfile_from_dict({"a": a, "b": b})
+        elif start == "dict_mixed":
+            # other dtypes: the alias structure does not depend on them
+            self.cf = C.colfile_from_dict({"a": a.astype(np.int64), "b": b.astype(np.float32)})
+        elif start == "dict_strided":
+            # two non-contiguous views of one block (as the g-vector columns in updateGV): disjoint elements
+            blk = np.array([[0., 2.], [1., 0.], [2., 1.]])
+            self.cf = C.colfile_from_dict({"a": blk[:, 0], "b": blk[:, 1]})
         elif start == "new":
             self.cf = C.newcolumnfile([])
             self.cf.nrows = 3
@@ -56,18 +86,38 @@ class Real(object):
             raise ValueError(start)
         self.user = None
         self.cp = None
+        self.ret = None
+        self.listarg = False
 
-    def apply(self, op):
+    def apply(self, op, last=False):
+        """last: op is the final operation of the history (its state is judged at once): only then an array
+        argument may be handed over as a python list (on a tree that stores the list the history could not go on)"""
         cf = self.cf
         name = op[0]
         n = cf.nrows
-        if name == "addnew":
-            cf.addcolumn(pattern(op[2], n), op[1])
-        elif name == "addover":
-            if op[2] == 0:
-                cf.setcolumn(pattern(op[2], n), op[1])
+        self.ret = None
+        self.listarg = False
+        if name in ("addnew", "setitem_new"):
+            col = pattern(op[2], n)
+            if last and op[2] == 2:
+                col = col.tolist()
+                self.listarg = True
+                fam("list_" + name)
+            if name == "addnew":
+                cf.addcolumn(col, op[1])
             else:
-                cf.addcolumn(pattern(op[2], n), op[1])
+                cf[op[1]] = col
+                fam("setitem_new")
+        elif name == "addover":
+            col = pattern(op[2], n)
+            if last and (op[2] == 2 or (op[2] == 0 and op[1] == "b")):
+                col = col.tolist()
+                self.listarg = True
+                fam("list_addover_arraymode" if isinstance(cf._columnfile__data, np.ndarray) else "list_addover_listmode")
+            if op[2] == 0:
+                cf.setcolumn(col, op[1])
+            else:
+                cf.addcolumn(col, op[1])
         elif name == "addalias":
             cf.addcolumn(getattr(cf, op[2]), op[1])
         elif name == "setitem_scalar":
@@ -83,7 +133,14 @@ class Real(object):
             m = np.array(op[1], dtype=bool)
             cf.filter(m if sum(op[1]) % 2 else list(m))
         elif name == "removerows":
-            cf.removerows(op[1], [op[2]])
+            vals, tol2 = list(op[2]), op[3]
+            if len(vals) > 1:
+                fam("removerows_multi")
+            if tol2 == 0:
+                cf.removerows(op[1], vals)
+            else:
+                fam("removerows_tol")
+                cf.removerows(op[1], tuple(vals), tol=tol2 / 2.0)
         elif name == "reorder":
             cf.reorder(np.array(op[1], dtype=int) - 1)
         elif name == "sortby":
@@ -91,15 +148,28 @@ class Real(object):
         elif name == "copy":
             self.cp = cf.copy()
         elif name == "copyrows_mask":
-            self.cp = cf.copyrows(np.array(op[1], dtype=bool))
+            m = np.array(op[1], dtype=bool)
+            if sum(op[1]) % 2:
+                fam("copyrows_listmask")
+                m = [bool(x) for x in m]
+            self.cp = cf.copyrows(m)
         elif name == "copyrows_idx":
             ix = [i - 1 for i in op[1]]
             # index lists and index arrays (int64 / int32) take different numpy paths
             self.cp = cf.copyrows(ix if len(ix) % 2 else np.array(ix, dtype=[np.int64, np.int32][sum(ix) % 2]))
         elif name == "copyrows_slice":
-            self.cp = cf.copyrows(slice(op[1], op[2]))
+            lo, hi, st = [None if x == 9 else x for x in op[1:4]]
+            if st == 1:
+                sl = slice(lo, hi)
+            else:
+                fam("copyrows_slice_step")
+                sl = slice(lo, hi, st)
+            if lo is not None and lo < 0:
+                fam("copyrows_slice_negative")
+            self.cp = cf.copyrows(sl)
         elif name == "getbig":
-            cf.bigarray
+            # the returned array is an observation point of its own: kept and judged
+            self.ret = cf.bigarray if n % 2 else cf.get_bigarray()
         elif name == "setbig":
             kind, nr, v = op[1], op[2], op[3]
             ar = [pattern(v + i + 1, nr) for i in range(len(cf.titles))]
@@ -122,6 +192,11 @@ class Real(object):
             raise common.MachineryError("unknown op %r" % (op,))
 
     def project(self):
+        """the real object as the model sees it.  Memory regions are numbered in order of first occurrence over
+        __data, attributes, user reference, copy's __data (the model's Canon order); every further view (getcolumn,
+        item, rows of the returned bigarray, the copy's attribute / item / getcolumn views) is numbered after them,
+        so a view that is the region it should be gets that region's number and a stray one gets a new number.
+        A view that is not an ndarray gets 0 (absent), -1 (scalar) or -2 (anything else, e.g. a python list)."""
         cf = self.cf
         data = cf._columnfile__data
         titles = list(cf.titles)
@@ -129,42 +204,97 @@ class Real(object):
               "isarr": isinstance(data, np.ndarray)}
         dcols = [data[i] for i in range(len(data))]
         acols = [getattr(cf, t, None) for t in titles]
-        st["dcols"] = [_tolist(c) for c in dcols]
-        st["acols"] = [_tolist(c) for c in acols]
-        refs = list(dcols) + [c for c in acols if isinstance(c, np.ndarray)]
+        gcols = [_call(cf.getcolumn, t) for t in titles]
+        icols = [_call(cf.__getitem__, t) for t in titles]
+        memo = {}
+
+        def tl(c, memo=memo, conv=_tolist):
+            # the same object seen through several views is converted once (the objects are all alive in this frame)
+            k = id(c)
+            if k not in memo:
+                memo[k] = conv(c)
+            return memo[k]
+        st["dcols"] = [tl(c) for c in dcols]
+        st["acols"] = [tl(c) for c in acols]
+        st["gcols"] = [tl(c) for c in gcols]
+        st["icols"] = [tl(c) for c in icols]
+        isa = lambda c: isinstance(c, np.ndarray)
+        refs = [c for c in dcols if isa(c)] + [c for c in acols if isa(c)]
         if self.user is not None:
             refs.append(self.user)
-        cpcols = []
-        if self.cp is not None:
-            cpd = self.cp._columnfile__data
+        cpcols, cpacols, cpgcols, cpicols = [], [], [], []
+        cp = self.cp
+        if cp is not None:
+            cpd = cp._columnfile__data
             cpcols = [cpd[i] for i in range(len(cpd))]
-            refs += cpcols
+            refs += [c for c in cpcols if isa(c)]
+            cpacols = [getattr(cp, t, None) for t in cp.titles]
+            cpgcols = [_call(cp.getcolumn, t) for t in cp.titles]
+            cpicols = [_call(cp.__getitem__, t) for t in cp.titles]
+        ret = self.ret
+        retrows = []
+        if ret is not None:
+            st["ret_type"] = type(ret).__name__
+            st["ret_shape"] = list(getattr(ret, "shape", ()))
+            if isa(ret) and ret.ndim == 2:
+                retrows = [ret[i] for i in range(ret.shape[0])]
+        later = [gcols, icols, cpacols, cpgcols, cpicols, retrows]
+        for grp in later:
+            refs += [c for c in grp if isa(c)]
         ids, partial = _canon(refs)
-        k = 0
-        st["dids"] = ids[k:k + len(dcols)]
-        k += len(dcols)
-        aids = []
-        for c in acols:
-            if isinstance(c, np.ndarray):
-                aids.append(ids[k])
-                k += 1
-            else:
-                aids.append(0 if c is None else -1)
-        st["aids"] = aids
+        pos = [0]
+
+        def take(cols):
+            out = []
+            for c in cols:
+                if isa(c):
+                    out.append(ids[pos[0]])
+                    pos[0] += 1
+                else:
+                    out.append(0 if c is None else (-1 if np.isscalar(c) else -2))
+            return out
+        st["dids"] = take(dcols)
+        st["aids"] = take(acols)
+        k = pos[0]
         if self.user is not None:
             st["user"] = ids[k]
-            st["ucol"] = _tolist(self.user)
+            st["ucol"] = tl(self.user)
             k += 1
         else:
             st["user"] = 0
             st["ucol"] = []
-        st["cpon"] = self.cp is not None
-        st["cpids"] = ids[k:k + len(cpcols)]
-        st["cpcols"] = [_tolist(c) for c in cpcols]
-        st["cptitles"] = list(self.cp.titles) if self.cp is not None else []
-        st["cpnrows"] = int(self.cp.nrows) if self.cp is not None else 0
+        pos[0] = k
+        st["cpon"] = cp is not None
+        st["cpids"] = take(cpcols)
+        st["cpcols"] = [tl(c) for c in cpcols]
+        st["cptitles"] = list(cp.titles) if cp is not None else []
+        st["cpnrows"] = int(cp.nrows) if cp is not None else 0
+        st["cpncols"] = int(cp.ncols) if cp is not None else 0
+        st["gids"] = take(gcols)
+        st["iids"] = take(icols)
+        st["cpaids"] = take(cpacols)
+        st["cpgids"] = take(cpgcols)
+        st["cpiids"] = take(cpicols)
+        st["cpacols"] = [tl(c) for c in cpacols]
+        st["ret"] = take(retrows)
+        st["retcols"] = [tl(c) for c in retrows]
+        st["has_ret"] = ret is not None
+        st["listarg"] = self.listarg
+        st["cpmeta_shared"] = []
+        if cp is not None:
+            if cp.titles is cf.titles:
+                st["cpmeta_shared"].append("titles")
+            if cp.parameters is cf.parameters or cp.parameters.parameters is cf.parameters.parameters:
+                st["cpmeta_shared"].append("parameters")
         st["partial_overlap"] = partial
         return st
+
+
+def _call(f, t):
+    try:
+        return f(t)
+    except Exception:
+        return None
 
 
 def _tolist(c):
@@ -178,29 +308,51 @@ def _tolist(c):
         return ["unprintable", repr(c)]
 
 
+def _extent(r):
+    """(address of element 0, lowest byte, one past the highest byte) of an array"""
+    p = r.__array_interface__["data"][0]
+    lo = hi = p
+    for n, st in zip(r.shape, r.strides):
+        if st < 0:
+            lo += st * (n - 1)
+        else:
+            hi += st * (n - 1)
+    return p, lo, hi + r.itemsize
+
+
 def _canon(refs):
-    """canonical numbering of memory regions in order of first occurrence"""
+    """canonical numbering of memory regions in order of first occurrence (same region = same address of the first
+    element, same size and strides); any other overlap (np.shares_memory, asked only when the byte ranges intersect)
+    is flagged as partial"""
     ids = []
-    reps = []
+    reps = []          # (array, p, lo, hi, nbytes, strides)
+    memo = {}
     partial = False
     for r in refs:
+        k = id(r)
+        if k in memo:
+            ids.append(memo[k])
+            continue
         found = 0
         if r.size > 0:
-            p = r.__array_interface__["data"][0]
+            p, lo, hi = _extent(r)
+            nb, st = r.nbytes, r.strides
             for j, q in enumerate(reps):
-                if q is None or q.size == 0:
+                if q is None:
                     continue
-                qp = q.__array_interface__["data"][0]
-                if qp == p and q.nbytes == r.nbytes and q.strides == r.strides:
+                if q[1] == p and q[4] == nb and q[5] == st:
                     found = j + 1
                     break
-                if np.shares_memory(q, r):
+                if lo < q[3] and q[2] < hi and np.shares_memory(q[0], r):
                     partial = True
-        if found:
-            ids.append(found)
+            if not found:
+                reps.append((r, p, lo, hi, nb, st))
         else:
-            reps.append(r)
-            ids.append(len(reps))
+            reps.append(None)
+        if not found:
+            found = len(reps)
+        ids.append(found)
+        memo[k] = found
     return ids, partial
 
 
@@ -225,7 +377,10 @@ def _startfile(C, kind):
 
 
 KEYS = ["titles", "nrows", "ncols", "dcols", "acols", "dids", "aids", "isarr", "user", "ucol",
-        "cpon", "cpids", "cpcols", "cptitles", "cpnrows"]
+        "cpon", "cpids", "cpcols", "cptitles", "cpnrows",
+        # the public views and the copy as an object (model values derived in fix_model) ; the returned bigarray
+        "gcols", "icols", "gids", "iids", "cpncols", "cpacols", "cpaids", "cpgids", "cpiids", "ret", "retcols"]
+IDKEYS = ("dids", "aids", "user", "cpids", "gids", "iids", "cpaids", "cpgids", "cpiids", "ret")
 
 
 def compare(model, real):
@@ -233,17 +388,37 @@ def compare(model, real):
     diffs = []
     degenerate = model["nrows"] == 0 or (model["cpon"] and model["cpnrows"] == 0)
     for k in KEYS:
-        if k in ("dids", "aids", "user", "cpids") and degenerate:
+        if k in IDKEYS and degenerate:
             continue
-        mv = model[k]
-        rv = real[k]
-        if k == "ncols":
-            pass
-        if mv != rv:
+        if k not in model:          # replay files written before the key existed
+            continue
+        if model[k] != real[k]:
             diffs.append(k)
     if real.get("partial_overlap") and not degenerate:
         diffs.append("partial_overlap")
     return diffs
+
+
+def known_problem(ops, k, before, real):
+    """structural matchers of the two proposed findings; k = index of the operation just executed.
+    Returns a list of (finding id, keys of compare() it accounts for, direct_property messages it accounts for)."""
+    out = []
+    op = ops[k]
+    # addcolumn / setcolumn(python list, existing title) while __data is a list: the list object itself is stored
+    if (op[0] == "addover" and real.get("listarg") and before is not None and not before["isarr"]
+            and op[1] in real["titles"]):
+        i = real["titles"].index(op[1])
+        exp = [int(x) for x in pattern(op[2], real["nrows"])]
+        if (real["dids"][i] == -2 and real["aids"][i] == -2 and real["dcols"][i] == exp and real["acols"][i] == exp
+                and real["titles"] == before["titles"] and real["nrows"] == before["nrows"]
+                and all(real["dcols"][j] == before["dcols"][j] for j in range(len(real["titles"])) if j != i)):
+            out.append((OVERLIST_FINDING, set(IDKEYS), ("is not an ndarray", "different storage")))
+    # copyrows leaves ncols of the row-copy at 0 (sticky: the copy stays until the next copy)
+    made = [o[0] for o in ops[:k + 1] if o[0] in COPY_OPS]
+    if (made and made[-1].startswith("copyrows") and real["cpon"] and real["cpncols"] == 0
+            and len(real["cptitles"]) > 0):
+        out.append((CPNCOLS_FINDING, {"cpncols"}, ("copy has ncols",)))
+    return out
 
 
 def direct_property(real, before, op, model_aliased):
@@ -252,15 +427,48 @@ def direct_property(real, before, op, model_aliased):
     n = real["nrows"]
     if len(real["titles"]) != len(real["dcols"]):
         bad.append("titles/columns mismatch")
-    for t, d, a in zip(real["titles"], real["dcols"], real["acols"]):
+    if real["ncols"] != len(real["titles"]):
+        bad.append("ncols=%d but %d titles" % (real["ncols"], len(real["titles"])))
+    for i, (t, d, a) in enumerate(zip(real["titles"], real["dcols"], real["acols"])):
         if len(d) != n:
             bad.append("column %s has %d entries, nrows=%d" % (t, len(d), n))
         if a != d:
             bad.append("attribute view of %s differs from item view" % t)
+        if real["gcols"][i] != d or real["icols"][i] != d:
+            bad.append("getcolumn / item view of %s differs from the stored column" % t)
+        if min(real["dids"][i], real["aids"][i], real["gids"][i], real["iids"][i]) <= 0:
+            bad.append("a view of %s is not an ndarray" % t)
     if n > 0:
-        for t, di, ai in zip(real["titles"], real["dids"], real["aids"]):
-            if di != ai:
-                bad.append("attribute and item views of %s are different storage" % t)
+        for i, t in enumerate(real["titles"]):
+            if len(set([real["dids"][i], real["aids"][i], real["gids"][i], real["iids"][i]])) != 1:
+                bad.append("attribute, item and getcolumn views of %s are different storage" % t)
+    if real["cpon"]:
+        # the copy is a columnfile: the same clauses hold for it
+        m = real["cpnrows"]
+        if len(real["cptitles"]) != len(real["cpcols"]):
+            bad.append("copy: titles/columns mismatch")
+        if real["cpncols"] != len(real["cptitles"]):
+            bad.append("copy has ncols=%d but %d titles" % (real["cpncols"], len(real["cptitles"])))
+        for i, (t, d) in enumerate(zip(real["cptitles"], real["cpcols"])):
+            if len(d) != m:
+                bad.append("copy: column %s has %d entries, nrows=%d" % (t, len(d), m))
+            if real["cpacols"][i] != d:
+                bad.append("copy: attribute view of %s differs from its column" % t)
+            if m > 0 and len(set([real["cpids"][i], real["cpaids"][i], real["cpgids"][i], real["cpiids"][i]])) != 1:
+                bad.append("copy: attribute, item and getcolumn views of %s are different storage" % t)
+            if min(real["cpids"][i], real["cpaids"][i], real["cpgids"][i], real["cpiids"][i]) <= 0:
+                bad.append("copy: a view of %s is not an ndarray" % t)
+        for what in real["cpmeta_shared"]:
+            bad.append("copy shares its %s object with its parent" % what)
+    if real["has_ret"]:
+        # cf.bigarray returned an array: (ncols, nrows), row i IS column i
+        if real.get("ret_type") != "ndarray" or real.get("ret_shape") != [len(real["titles"]), n]:
+            bad.append("bigarray returned %s of shape %s, expected ndarray (%d, %d)" % (
+                real.get("ret_type"), real.get("ret_shape"), len(real["titles"]), n))
+        elif real["retcols"] != real["dcols"]:
+            bad.append("rows of the returned bigarray differ from the columns")
+        elif n > 0 and real["ret"] != real["dids"]:
+            bad.append("rows of the returned bigarray are different storage from the columns")
     if real["cpon"] and real["cpnrows"] > 0 and n > 0:
         own = set(real["dids"]) | set(i for i in real["aids"] if i > 0)
         if own & set(real["cpids"]) or real.get("partial_overlap"):
@@ -279,8 +487,12 @@ def _rowmap(before, op):
     if op[0] == "filter":
         return [i for i in range(n) if op[1][i] == 1]
     if op[0] == "removerows":
+        # the documented rule, from the column as it was: integer comparison (tol <= 0) or |x - v| < tol
         col = before["dcols"][before["titles"].index(op[1])]
-        return [i for i in range(n) if int(col[i]) != op[2]]
+        vals, tol = op[2], op[3] / 2.0
+        if tol <= 0:
+            return [i for i in range(n) if not any(int(col[i]) == v for v in vals)]
+        return [i for i in range(n) if not any(abs(col[i] - v) < tol for v in vals)]
     if op[0] == "reorder":
         return [i - 1 for i in op[1]]
     if op[0] == "sortby":
@@ -298,7 +510,7 @@ def replay_ops(C, start, ops, want_states=False):
         if k == len(ops) - 1 or want_states:
             before = r.project()
         try:
-            r.apply(op)
+            r.apply(op, last=(k == len(ops) - 1))
         except common.MachineryError:
             raise
         except Exception as e:
@@ -309,25 +521,65 @@ def replay_ops(C, start, ops, want_states=False):
 
 
 def judge(chk, C, ops, model_final, start, allow_alias=False, model_states=None):
-    """replay one behaviour; returns list of problems (strings)"""
+    """replay one behaviour; returns list of problems (message, id of the finding whose structural matcher accounts
+    for it or None)"""
     real, before, err, states = replay_ops(C, start, ops, want_states=model_states is not None)
     problems = []
     if err:
-        problems.append("operation failed on the real object: " + err)
+        problems.append(("operation failed on the real object: " + err, None))
         return problems
     aliased = len(set(model_final["dids"])) < len(model_final["dids"])
+    known = set()
     if model_states is not None:
         for k, (ms, rs) in enumerate(zip(model_states, states)):
             d = compare(ms, rs)
+            for kp in (known_problem(ops, k, states[k - 1] if k else (before if len(ops) == 1 else None), rs) if d else []):
+                if set(d) & kp[1]:
+                    known.add(kp[0])
+                    d = [x for x in d if x not in kp[1]]
             if d:
-                problems.append("step %d %s: real object differs from specification in %s" % (k + 1, ops[k], d))
+                problems.append(("step %d %s: real object differs from specification in %s" % (k + 1, ops[k], d), None))
                 break
     d = compare(model_final, real)
+    bad = direct_property(real, before, ops[-1], aliased and allow_alias)
+    for kp in (known_problem(ops, len(ops) - 1, before, real) if (d or bad) else []):
+        if set(d) & kp[1] or any(m in b for b in bad for m in kp[2]):
+            known.add(kp[0])
+        d = [x for x in d if x not in kp[1]]
+        bad = [b for b in bad if not any(m in b for m in kp[2])]
     if d:
-        problems.append("after %s the real object differs from the specification in %s (model %s real %s)" % (
-            ops[-1], d, {k: model_final[k] for k in d if k in model_final}, {k: real.get(k) for k in d}))
-    problems += direct_property(real, before, ops[-1], aliased and allow_alias)
+        problems.append(("after %s the real object differs from the specification in %s (model %s real %s)" % (
+            ops[-1], d, {k: model_final[k] for k in d if k in model_final}, {k: real.get(k) for k in d}), None))
+    problems += [(b, None) for b in bad]
+    for fid in sorted(known):
+        problems.append((FINDING_TEXT[fid] % (ops,), fid))
     return problems
+
+
+FINDING_TEXT = {
+    CPNCOLS_FINDING: "copyrows() returns a columnfile whose ncols is 0 although it has titles and columns (copy() gives "
+                     "len(titles)); history %s",
+    OVERLIST_FINDING: "addcolumn / setcolumn(python list, existing title) on a list-mode columnfile stores the list itself: "
+                      "cf.<t>, cf[<t>] and getcolumn(<t>) are a python list (the new-title branch converts with "
+                      "np.asanyarray), the next filter / copy / reorder raises; history %s",
+}
+
+
+def report(chk, problems, case):
+    """violations, except those a recorded finding accounts for"""
+    for msg, fid in problems:
+        if fid is not None and chk.finding(fid):
+            chk.known_finding(fid, msg)
+        else:
+            chk.violation(msg, case)
+
+
+def fix_entry(e):
+    """one history entry {op, st, ret} from TLC -> expected projection"""
+    out = fix_model(e["st"])
+    out["ret"] = list(e.get("ret", []))
+    out["retcols"] = [out["dcols"][i] for i in range(len(out["ret"]))]
+    return out
 
 
 def fix_model(st):
@@ -339,10 +591,18 @@ def fix_model(st):
         out[k] = [list(c) for c in st[k]]
     for k in ("dids", "aids", "cpids", "ucol", "titles", "cptitles"):
         out[k] = list(st[k])
+    # the views the model does not carry separately: item / getcolumn ARE data[idx]; the copy's attributes are
+    # set by set_bigarray -> set_attributes on its own columns
+    out["gids"] = out["iids"] = out["dids"]
+    out["gcols"] = out["icols"] = out["dcols"]
+    out["cpaids"] = out["cpgids"] = out["cpiids"] = out["cpids"]
+    out["cpacols"] = out["cpcols"]
+    out.setdefault("ret", [])
+    out.setdefault("retcols", [])
     return out
 
 
-STARTS = ["dict", "new", "text", "hdf"]
+STARTS = ["dict", "new", "text", "hdf", "dict_mixed", "dict_strided"]
 
 
 def run(tier, replay=None):
@@ -353,18 +613,24 @@ def run(tier, replay=None):
     import io, contextlib
     chk.rule = ("TLC explores Columnfile.tla (repaired-code configuration) breadth first; every transition "
                 "(representative path of each distinct state + one more operation) is replayed on a real columnfile "
-                "started 4 ways (dict, newcolumnfile+addcolumn, text file, hdf file); distinct = distinct operation "
+                "started 6 ways (dict, newcolumnfile+addcolumn, text file, hdf file, dict of int64+float32 columns, "
+                "dict of strided views of one block); distinct = distinct operation "
                 "sequence; non-trivial = at least 2 operations or a row/copy/bigarray operation")
     chk.assumptions = ["numpy arrays are either the same memory region or disjoint (partial overlaps are flagged)",
-                       "values are small integers stored as float64; sortby only on columns without ties",
+                       "values are small integers (float64; int64 / float32 in one start form); sortby only on columns "
+                       "without ties; removerows tolerances are never at a boundary (|x - v| = tol)",
+                       "python lists as array arguments are judged for addcolumn / setcolumn / cf[new] = .. only (the "
+                       "repository's own callers and tests pass lists there); for attribute assignment they are not",
                        "PandasColumnfile is out of scope (pandas not installed)"]
+    FAM.clear()
     if replay:
         return run_replay(chk, C, replay)
 
     # the initial state of the model must be the state of all four start forms
     init = {"titles": ["a", "b"], "nrows": 3, "ncols": 2, "dcols": [[0, 1, 2], [2, 0, 1]],
             "acols": [[0, 1, 2], [2, 0, 1]], "dids": [1, 2], "aids": [1, 2], "isarr": False, "user": 0,
-            "ucol": [], "cpon": False, "cpids": [], "cpcols": [], "cptitles": [], "cpnrows": 0}
+            "ucol": [], "cpon": False, "cpids": [], "cpcols": [], "cptitles": [], "cpnrows": 0, "cpncols": 0}
+    init = fix_model(init)
     with contextlib.redirect_stdout(io.StringIO()):
         for sform in STARTS:
             d = compare(init, Real(sform, C).project())
@@ -374,7 +640,11 @@ def run(tier, replay=None):
 
     depth = 3 if tier == "quick" else 4
     # 1. exhaustive, repaired configuration, every transition emitted
-    res = common.run_tlc("Columnfile", cfg("fixed", depth, 1), workers=16, timeout=1500, coverage=(tier != "quick"))
+    # quick: one worker. The history is not part of the state identity (VIEW) and the depth bound reads the history:
+    # only a strict breadth-first search expands every state at its least depth (16 workers on a loaded box lost up
+    # to 40 % of the depth-3 transitions, differently in every run)
+    res = common.run_tlc("Columnfile", cfg("fixed", depth, 1), workers=(1 if tier == "quick" else 16), timeout=1500,
+                         coverage=(tier != "quick"))
     chk.add_tlc("Columnfile fixed depth %d (all transitions)" % depth, res)
     if res.violated:
         raise common.MachineryError("repaired-code model violates %s" % res.violated)
@@ -398,15 +668,18 @@ def run(tier, replay=None):
                 nskipped += 1
                 continue
             seen.add(key)
-            model_final = fix_model(h[-1]["st"])
-            sform = STARTS[len(seen) % 4]
+            model_final = fix_entry(h[-1])
+            sform = STARTS[len(seen) % len(STARTS)]
             probs = judge(chk, C, ops, model_final, sform)
             chk.case(key, nontrivial=(len(ops) >= 2 or ops[-1][0] not in ("take_attr", "take_item")))
             chk.traces += 1
+            if ops[-1][0] == "getbig":
+                fam("getbig_return_judged")
+            elif ops[-1][0] in COPY_OPS:
+                fam("copy_object_judged" if ops[-1][0] == "copy" else "rowcopy_object_judged")
             if len(seen) in (7, 777, 7777):
                 chk.sample({"start": sform, "ops": ops, "expected_final": model_final})
-            for p in probs:
-                chk.violation(p, {"start": sform, "ops": ops, "model_final": model_final})
+            report(chk, probs, {"start": sform, "ops": ops, "model_final": model_final})
             if len(chk.violations) > 20:
                 break
     if n_bad_lines:
@@ -439,15 +712,19 @@ def run(tier, replay=None):
                 continue
             seen.add(key)
             k += 1
-            sform = STARTS[k % 4]
-            mstates = [fix_model(e["st"]) for e in h]
+            sform = STARTS[k % len(STARTS)]
+            mstates = [fix_entry(e) for e in h]
             probs = judge(chk, C, ops, mstates[-1], sform, model_states=mstates)
             chk.case(key)
             chk.traces += 1
+            for o in ops:
+                if o[0] == "getbig":
+                    fam("getbig_return_judged")
+                elif o[0] in COPY_OPS:
+                    fam("copy_object_judged" if o[0] == "copy" else "rowcopy_object_judged")
             if k == 5:
                 chk.sample({"start": sform, "ops": ops})
-            for p in probs:
-                chk.violation(p, {"start": sform, "ops": ops, "model_states": mstates})
+            report(chk, probs, {"start": sform, "ops": ops, "model_states": mstates})
             if len(chk.violations) > 20:
                 break
 
@@ -459,7 +736,7 @@ def run(tier, replay=None):
         last = resa.trace[-1]["vars"]["hist"]
         h = common.parse_tla(last)
         ops = [list(_untuple(e["op"])) for e in h]
-        mfinal = fix_model(_untuple(h[-1]["st"]))
+        mfinal = fix_entry(_untuple(h[-1]))
         with contextlib.redirect_stdout(io.StringIO()):
             real, before, err, _ = replay_ops(C, "dict", ops)
         confirmed = False
@@ -477,7 +754,7 @@ def run(tier, replay=None):
                 chk.violation(what, {"start": "dict", "ops": ops, "model_final": mfinal})
         chk.notes["alias_counterexample"] = {"ops": ops, "reproduced_on_real_code": confirmed}
         # conformance of the aliased behaviours (model predicts the double permutation exactly)
-        resb = common.run_tlc("Columnfile", cfg("aliasconf", 3, 1, alias=True, props=False), workers=16, timeout=1500)
+        resb = common.run_tlc("Columnfile", cfg("aliasconf", 3, 3, alias=True, props=False), workers=16, timeout=1500)
         chk.add_tlc("Columnfile AllowAlias depth 3 (conformance of aliased behaviours)", resb)
         with contextlib.redirect_stdout(io.StringIO()):
             for line in resb.printed:
@@ -492,26 +769,77 @@ def run(tier, replay=None):
                 if key in seen:
                     continue
                 seen.add(key)
-                mfinal = fix_model(h[-1]["st"])
+                mfinal = fix_entry(h[-1])
                 probs = judge(chk, C, ops, mfinal, "dict", allow_alias=True)
                 chk.case(key)
                 chk.traces += 1
-                for p in probs:
-                    chk.violation(p, {"start": "dict", "ops": ops, "model_final": mfinal, "alias": True})
+                report(chk, probs, {"start": "dict", "ops": ops, "model_final": mfinal, "alias": True})
     elif not resa.violated:
         raise common.MachineryError("AllowAlias configuration did not violate RowOpsUniform (vacuity)")
 
     # 4. the BUG_* configurations document how TLC finds each repaired defect (thorough only): each must violate
     if tier == "thorough":
         expect = {"BUG_GETBIG": "SameStorage", "BUG_SCALAR": "ViewsAgree", "BUG_ARRATTR": "SameStorage",
-                  "BUG_ADDARR": "NoError", "BUG_SLICE": "CopiesDisjoint"}
+                  "BUG_ADDARR": "NoError", "BUG_SLICE": "CopiesDisjoint", "BUG_CPNCOLS": "CopyRectangular",
+                  "BUG_OVERLIST": "ViewsAgree"}
         for b, inv in expect.items():
             r = common.run_tlc("Columnfile", cfg("bug_" + b, 4, 0, bugs=(b,)), workers=16, timeout=900)
             chk.add_tlc("Columnfile %s (expected: %s violated)" % (b, inv), r)
             if not r.violated:
                 raise common.MachineryError("configuration %s no longer violates any invariant (vacuity)" % b)
         selftest(C)
+    observations(chk, C)
+    chk.notes["families"] = dict(sorted(FAM.items()))
     return chk.finish()
+
+
+def observations(chk, C):
+    """behaviour outside the statement (input kinds the property does not name): recorded, never judged"""
+    import io, contextlib
+    obs = {}
+
+    def probe(name, f):
+        try:
+            with contextlib.redirect_stdout(io.StringIO()):
+                obs[name] = "ok: %s" % (f(),)
+        except Exception as e:
+            obs[name] = "raises %s" % type(e).__name__
+
+    def mk():
+        return C.colfile_from_dict({"a": np.array([0., 1., 2.]), "b": np.array([2., 0., 1.])})
+
+    def setattr_list():
+        c = mk()
+        c.a = [1., 2., 3.]
+        return type(c.a).__name__
+    probe("cf.a = python list (list mode): type of cf.a", setattr_list)
+
+    def setattr_0d():
+        c = mk()
+        c.a = np.array(5.0)
+    probe("cf.a = 0-d array", setattr_0d)
+
+    def setitem_new_scalar():
+        c = mk()
+        c["c"] = 1.0
+    probe("cf[new title] = scalar", setitem_new_scalar)
+
+    def declared():
+        c = C.newcolumnfile(["a", "b"])
+        c.nrows = 3
+        c.addcolumn(np.zeros(3), "a")
+    probe("newcolumnfile(['a','b']) never given data, then addcolumn(x, 'a')", declared)
+
+    def empty_values():
+        c = mk()
+        c.removerows("a", [])
+    probe("removerows(t, [])", empty_values)
+
+    def bigint():
+        c = C.colfile_from_dict({"a": np.array([2 ** 53 + 1, 1, 2], dtype=np.int64), "b": np.array([2., 0., 1.])})
+        return int(c.bigarray[0][0]) == 2 ** 53 + 1
+    probe("int64 2**53+1 next to a float column survives cf.bigarray", bigint)
+    chk.notes["observations"] = obs
 
 
 def _untuple(x):
@@ -537,8 +865,7 @@ def run_replay(chk, C, path):
     chk.traces += 1
     chk.sample({"ops": ops})
     chk.exhaustive = False
-    for p in probs:
-        chk.violation(p, case)
+    report(chk, probs, case)
     return chk.finish()
 
 
@@ -561,3 +888,24 @@ def selftest(C=None):
     bad["aids"] = [bad["aids"][1], bad["aids"][0]]
     if not compare(bad, real):
         raise common.MachineryError("selftest: perturbed alias structure not rejected")
+    # the value get_bigarray returned, the public views, the copy as an object
+    bad = json.loads(json.dumps(model))
+    bad["ret"] = bad["ret"][::-1]
+    if not real["has_ret"] or not compare(bad, real):
+        raise common.MachineryError("selftest: perturbed bigarray return value not rejected")
+    doctored = json.loads(json.dumps(real))
+    doctored["ret"] = [9, 9]
+    if not any("returned bigarray" in b for b in direct_property(doctored, before, ops[-1], False)):
+        raise common.MachineryError("selftest: a returned bigarray on other storage is not rejected by the direct clause")
+    doctored = json.loads(json.dumps(real))
+    doctored["gids"] = doctored["gids"][::-1]
+    if not any("different storage" in b for b in direct_property(doctored, before, ops[-1], False)):
+        raise common.MachineryError("selftest: a getcolumn view on other storage is not rejected")
+    with contextlib.redirect_stdout(io.StringIO()):
+        real2, before2, err, _ = replay_ops(C, "dict", [["copy"]])
+    doctored = json.loads(json.dumps(real2))
+    doctored["cpncols"] = 0
+    if not any("copy has ncols" in b for b in direct_property(doctored, before2, ["copy"], False)):
+        raise common.MachineryError("selftest: a copy with ncols 0 is not rejected")
+    if known_problem([["copy"]], 0, before2, doctored):
+        raise common.MachineryError("selftest: the copyrows-ncols matcher accepts a copy() with ncols 0")
